@@ -44,6 +44,10 @@ def run(prog: Program, rep: Report, tier: str):
     rep.rule("G7.falsy-zero", "'p = p or D' on a constructor argument for which the same constructor's validation admits 0 (a "
              "non-strict lower bound 0 <= p, or a bare isinstance(p, int)) and D is not zero: the explicit value 0 silently "
              "becomes D")
+    rep.rule("G7.falsy-empty", "a collection-valued selection argument whose absence the constructor marks by None (it branches on "
+             "'<arg> is None' / 'is not None') is not also branched on by truthiness (of the argument, of the attribute it is stored "
+             "in, or of a list / set / tuple copy of it): an explicitly given empty collection selects nothing - it is not the same "
+             "request as no collection at all")
     rep.rule("G8.loop-progress", "every 'while v > 0' loop of a constructor decrements v by a provably positive amount: a positive "
              "constant, or len(x[:v]) of a pool x whose non-emptiness is guaranteed by a guard that leaves the iteration "
              "(continue / break / raise under a zero-length or zero-count test on that pool) before the loop")
@@ -119,6 +123,8 @@ def run(prog: Program, rep: Report, tier: str):
                 rep.bad("G7.falsy-zero", fi, construct, f"the constructor accepts {p}=0 ({admits}) but '{p} or ...' replaces it by "
                         f"{' '.join(ast.unparse(d).split())}: an explicit bound of 0 silently selects up to the default bound",
                         line=fa.line(n), clause="C03.2")
+        # ---- falsy empty: 'given but empty' must not be taken for 'not given' -----------------------------------------
+        _falsy_empty(rep, fa, fi)
         # ---- loop progress ------------------------------------------------------------------------------------------
         for n, nd in cfg.nodes.items():
             if nd.kind != "test" or not isinstance(nd.owner, ast.While):
@@ -412,3 +418,95 @@ def _assert_only(fa: FA, p: str) -> bool:
 
 def _stored_only(fa: FA, p: str) -> bool:
     return False
+
+
+def _falsy_empty(rep: Report, fa: FA, fi: FuncInfo):
+    cfg = fa.cfg
+    me = fa.self_name
+    ps = set(fi.params()[1:])
+
+    def root_of(e, at, depth=12):
+        """the constructor argument / self attribute a (copied, defaulted) collection value comes from"""
+        if depth <= 0 or e is None:
+            return None
+        if isinstance(e, ast.Name):
+            if e.id in ps:
+                return e.id  # (also when the constructor normalises it first: names -> ids, scalar -> list)
+            defs = cfg.reaching().get(at, {}).get(e.id, ())
+            roots = set()
+            for d in defs:
+                if cfg.nodes[d].kind == "entry":
+                    roots.add(e.id if e.id in ps else None)
+                    continue
+                v = cfg.def_value(d, e.id)
+                if isinstance(v, ast.Constant) and v.value is None:
+                    continue
+                roots.add(root_of(v, d, depth - 1) if v is not None else None)
+            return next(iter(roots)) if len(roots) == 1 else None
+        if isinstance(e, ast.Attribute) and isinstance(e.value, ast.Name) and e.value.id == me:
+            vals = [(n_, v) for n_, var, v in fa.stores(f"{me}.") if var == f"{me}.{e.attr}" and v is not None
+                    and not (isinstance(v, ast.Constant) and v.value is None)]
+            roots = {root_of(v, n_, depth - 1) for n_, v in vals}
+            roots.discard(None)
+            return next(iter(roots)) if len(roots) == 1 else f"{me}.{e.attr}"
+        if isinstance(e, ast.Call) and isinstance(e.func, ast.Name) and e.func.id in ("list", "set", "tuple", "sorted", "frozenset") \
+                and len(e.args) == 1:
+            return root_of(e.args[0], at, depth - 1)
+        if isinstance(e, ast.BoolOp) and isinstance(e.op, ast.Or) and len(e.values) == 2 and (
+                (isinstance(e.values[1], (ast.List, ast.Tuple, ast.Set)) and not e.values[1].elts) or
+                (isinstance(e.values[1], ast.Dict) and not e.values[1].keys) or
+                (isinstance(e.values[1], ast.Call) and isinstance(e.values[1].func, ast.Name) and not e.values[1].args)):
+            return root_of(e.values[0], at, depth - 1)
+        return None
+    # roots whose absence is marked by None: branch tests 'X is None' / 'X is not None' (asserts do not choose a behaviour)
+    none_marked = {}
+    collection = set()
+    for n, nd in cfg.nodes.items():
+        if nd.kind != "test":
+            continue
+        test = nd.ast
+        is_assert = isinstance(nd.owner, ast.Assert)
+        for x in ast.walk(test):
+            if isinstance(x, ast.Compare) and len(x.ops) == 1 and isinstance(x.ops[0], (ast.Is, ast.IsNot)) and \
+                    isinstance(x.comparators[0], ast.Constant) and x.comparators[0].value is None and not is_assert:
+                r = root_of(x.left, n)
+                if r is not None:
+                    none_marked.setdefault(r, nd.lineno)
+            if isinstance(x, ast.Call) and isinstance(x.func, ast.Name) and x.func.id == "isinstance" and len(x.args) == 2:
+                names_ = {y.id for y in ast.walk(x.args[1]) if isinstance(y, ast.Name)}
+                if names_ & {"list", "tuple", "set", "frozenset", "dict"}:
+                    r = root_of(x.args[0], n)
+                    if r is not None:
+                        collection.add(r)
+    for n_, var, v in fa.stores():
+        if isinstance(v, ast.Call) and isinstance(v.func, ast.Name) and v.func.id in ("set", "list", "tuple", "frozenset") and v.args:
+            r = root_of(v.args[0], n_)
+            if r is not None:
+                collection.add(r)
+
+    def truth_atoms(e):
+        if isinstance(e, ast.BoolOp):
+            for v in e.values:
+                yield from truth_atoms(v)
+        elif isinstance(e, ast.UnaryOp) and isinstance(e.op, ast.Not):
+            yield from truth_atoms(e.operand)
+        elif isinstance(e, (ast.Name, ast.Attribute)):
+            yield e
+        elif isinstance(e, ast.Compare) and len(e.ops) == 1 and isinstance(e.ops[0], (ast.Eq, ast.NotEq, ast.Gt)) and \
+                isinstance(e.left, ast.Call) and isinstance(e.left.func, ast.Name) and e.left.func.id == "len" and e.left.args and \
+                isinstance(e.comparators[0], ast.Constant) and e.comparators[0].value == 0:
+            yield e.left.args[0]
+    for n, nd in cfg.nodes.items():
+        if nd.kind != "test" or isinstance(nd.owner, ast.Assert):
+            continue
+        for a in truth_atoms(nd.ast):
+            r = root_of(a, n)
+            if r is None or r not in none_marked or r not in collection:
+                continue
+            rep.bad("G7.falsy-empty", fi, f"truthiness:{r}", f"line {nd.lineno} branches on whether {ast.unparse(a)} is empty, while "
+                    f"line {none_marked[r]} marks the absence of '{r}' by None: an explicitly given empty '{r}' is handled like "
+                    f"'{r}' not given at all (an empty selection of allowed values keeps nothing, it does not lift the filter)",
+                    line=nd.lineno, clause="C03.2")
+    for r in sorted(set(none_marked) & collection):
+        rep.ok("G7.falsy-empty", fi, f"none-marker:{r}", f"absence of '{r}' is decided by None-ness only", line=none_marked[r],
+               clause="C03.2", nontrivial=False)
